@@ -22,10 +22,13 @@ ASSUME \/ Tier = "replay"
 
 (* per world, evaluated once: who may access what under P, under the whole-list-star reading (for naming the *)
 (* class of a rejection only), and what the code-shaped model accepts / lists                                *)
-GTP == [k \in 1..Len(Wd) |-> GrantTable(Granted, Wd[k])]
-GTW == [k \in 1..Len(Wd) |-> GrantTable(GrantedWholeStar, Wd[k])]
-HTS == [k \in 1..Len(Wd) |-> SHasTable(Star, Wd[k])]
-LTS == [k \in 1..Len(Wd) |-> SListTable(Star, Wd[k])]
+(* (per admissible choice of the entry that counts where the configuration is ambiguous; S takes the code's choice)     *)
+RES == [k \in 1..Len(Wd) |-> [c \in Choices(Wd[k]) |-> Resolve(Wd[k], c)]]
+GTP == [k \in 1..Len(Wd) |-> [c \in Choices(Wd[k]) |-> GrantTable(Granted, RES[k][c])]]
+GTW == [k \in 1..Len(Wd) |-> [c \in Choices(Wd[k]) |-> GrantTable(GrantedWholeStar, RES[k][c])]]
+CC(k) == CodeChoice(Wd[k])
+HTS == [k \in 1..Len(Wd) |-> SHasTable(Star, RES[k][CC(k)])]
+LTS == [k \in 1..Len(Wd) |-> SListTable(Star, RES[k][CC(k)])]
 
 VARIABLE i
 Init == i = 0
@@ -36,21 +39,21 @@ Ok(r) ==
   CASE r.f = "ses" -> LET w == Wd[r.w]
                           s == Sd[r.s]
                       IN w.lay = s.lay /\ Len(r.o) = Len(s.cmds) /\ \A k \in 1..Len(r.o) : Len(r.o[k].pr) = Len(w.msgs)
-                         /\ POk(GTP[r.w], w, s.cmds, r.o)
-    [] r.f = "sk"  -> LET w == Wd[r.w] IN Len(r.upd) = Len(w.msgs) /\ SinkOk(GTP[r.w], w, r.su, r.upd, r.fnd, r.all)
+                         /\ \E c \in Choices(w) : POk(GTP[r.w][c], RES[r.w][c], s.cmds, r.o)
+    [] r.f = "sk"  -> LET w == Wd[r.w] IN Len(r.upd) = Len(w.msgs) /\ \E c \in Choices(w) : SinkOk(GTP[r.w][c], RES[r.w][c], r.su, r.upd, r.fnd, r.all)
     [] OTHER -> FALSE
 
 Sig(r) ==
   CASE r.f = "ses" -> LET w == Wd[r.w]
                           s == Sd[r.s]
-                          k == PFirstBad(GTP[r.w], w, s.cmds, r.o)
+                          k == PFirstBad(GTP[r.w][CC(r.w)], RES[r.w][CC(r.w)], s.cmds, r.o)
                       IN IF k = 0 THEN <<"shape">>
-                         ELSE IF PUsers(GTW[r.w], w, s.cmds, r.o)[Len(s.cmds)] # {} THEN <<"star-inside-list", s.cmds[k].op, k>>
+                         ELSE IF \E c \in Choices(w) : PUsers(GTW[r.w][c], RES[r.w][c], s.cmds, r.o)[Len(s.cmds)] # {} THEN <<"star-inside-list", s.cmds[k].op, k>>
                          ELSE <<"cmd", s.cmds[k].op, r.o[k].rc, k>>
-    [] r.f = "sk"  -> IF SinkOk(GTW[r.w], Wd[r.w], r.su, r.upd, r.fnd, r.all) THEN <<"star-inside-list", "sink">> ELSE <<"sink">>
+    [] r.f = "sk"  -> IF \E c \in Choices(Wd[r.w]) : SinkOk(GTW[r.w][c], RES[r.w][c], r.su, r.upd, r.fnd, r.all) THEN <<"star-inside-list", "sink">> ELSE <<"sink">>
     [] OTHER -> <<"family">>
 
-DriftNote(r) == r.f # "ses" \/ SConforms(HTS[r.w], LTS[r.w], Wd[r.w], Sd[r.s].cmds, r.o) \/ PrintT(<<"VF", "DRIFT", i>>)
+DriftNote(r) == r.f # "ses" \/ SConforms(HTS[r.w], LTS[r.w], RES[r.w][CC(r.w)], Sd[r.s].cmds, r.o) \/ PrintT(<<"VF", "DRIFT", i>>)
 Judge == i = 0 \/ (Ok(Recs[i]) /\ DriftNote(Recs[i])) \/ ~PrintT(<<"VF", "BAD", i, Sig(Recs[i])>>)
 
 (* completeness of this shard: for its worlds, every session of the same layout, every sink user *)
